@@ -10,6 +10,17 @@ TRUST = ("trusts the Go type checker, go/cfg, go/ssa, the documented semantics o
 
 # property id -> (claimed text, technique, design_ref)   (only built properties appear here)
 CLAIMS = {
+    "C16": (
+        "Decides: Envelope.Correct/Replicate store nothing through the source, call only Clone on its document, operate on the clone and "
+        "return Envelop(clone) — a new envelope with a freshly generated header identifier, no stamps and an empty signature list; Clone is "
+        "json round trip into a new object; Invoice.Correct copies identifier, type, series, code and issue date into the preceding "
+        "reference before any is re-assigned, takes reason and extensions from the options, replaces the preceding list by that reference, "
+        "clears code and identifier, takes the requested type and ends by recalculating; success is dominated by the requirement check, "
+        "which turns each of the definition's stamps/types/reason requirements into a refusal; Replicable documents clear identifier and code "
+        "and take today's date; no pointer into the source header is installed in options or result without a copy. Not decided: the regimes' "
+        "requirement tables, CLI option values.",
+        "static analysis: effect (no-store) rule, def-use and statement-order rules on go/cfg, field coverage of the preceding literal, aliasing rule",
+        "§4 C16"),
     "C01": (
         "Decides three structural necessary conditions of 'rounding happens only at the documented points': every sum seeded with the "
         "currency's zero (line sums, breakdowns, discount/charge sums, advances, payment lines, tax bases, category, surcharge and tax sums) "
